@@ -471,3 +471,16 @@ def run(ctx):
                         bad = "events of stream %d replayed as %s" % (i, [c for s, c in out if s == i])
         ctx.check(bad is None, "R3.5", "heap:player-protocol:%s" % "|".join(",".join(map(str, s)) for s in streams),
                   pop.loc(), "pop / step / re-insert over streams %s: %s" % (streams, bad))
+
+
+_run_base = run
+
+
+def run(ctx):
+    _run_base(ctx)
+    prog = ctx.prog
+    ctx.rule("R3.6", "the offset applied to a host's streams is the offset column of the clock table: the field that "
+             "receives the third conversion of the table parser's sscanf (offset_median in the table ovnisync writes) is "
+             "the field parse_clkoff_entry turns into the loom's clock offset (identified by value, not by name)")
+    from rules import round4
+    round4.check_clock_table_column(ctx, "R3.6")
